@@ -45,7 +45,8 @@ macro_rules! flavour_impl {
         }
 
         fn edge_json(e: &Edge<K, N, E>) -> Value {
-            json!([*e.0.key(), *e.1.key(), e.2])
+            // through the accessor methods, the API a user reads an edge with
+            json!([*e.source().key(), *e.target().key(), *e.value()])
         }
 
         impl World {
@@ -122,7 +123,7 @@ macro_rules! flavour_impl {
                             "out_degree": n.out_degree(), "in_degree": n.in_degree(),
                             "is_root": n.is_root(), "is_leaf": n.is_leaf(), "is_orphan": n.is_orphan(),
                             "is_connected": ic, "find_out": fo, "find_in": fi,
-                            "key": *n.key(), "value": n.value().v,
+                            "key": *n.key(), "value": Self::nval(n),
                         }));
                     }, {
                         let o: Vec<Value> = n.iter().map(|Edge(u, v, e)| {
@@ -134,7 +135,7 @@ macro_rules! flavour_impl {
                             "adj": o, "self_ok": self_ok,
                             "degree": n.degree(), "is_orphan": n.is_orphan(),
                             "is_connected": ic, "find_adj": fa,
-                            "key": *n.key(), "value": n.value().v,
+                            "key": *n.key(), "value": Self::nval(n),
                         }));
                     });
                 }
@@ -182,8 +183,15 @@ macro_rules! flavour_impl {
                 self.nodes.iter().position(|m| m.key() as *const K == p)
             }
 
+            /// the node's value: through value() and through Deref (`*node`), which must agree
+            fn nval(n: &Node<K, N, E>) -> Value {
+                let a = n.value().v;
+                let b = (**n).v;
+                if a != b { json!(["deref-differs", a, b]) } else { json!(a) }
+            }
+
             fn node_obs(&self, n: &Node<K, N, E>) -> Value {
-                json!({"alias": self.alias_of(n), "key": *n.key(), "value": n.value().v})
+                json!({"alias": self.alias_of(n), "key": *n.key(), "value": Self::nval(n)})
             }
 
             fn exists_now(&self, lst: &str, owner: K, other: K, val: E) -> bool {
@@ -277,10 +285,10 @@ macro_rules! flavour_impl {
                     sel!($kind, {
                         let o: Vec<Value> = n.iter_out().map(|Edge(_, v, e)| json!([*v.key(), e])).collect();
                         let i: Vec<Value> = n.iter_in().map(|Edge(u, _, e)| json!([*u.key(), e])).collect();
-                        out.push(json!({"out": o, "in": i, "key": *n.key(), "value": n.value().v}));
+                        out.push(json!({"out": o, "in": i, "key": *n.key(), "value": Self::nval(n)}));
                     }, {
                         let o: Vec<Value> = n.iter().map(|Edge(_, v, e)| json!([*v.key(), e])).collect();
-                        out.push(json!({"adj": o, "key": *n.key(), "value": n.value().v}));
+                        out.push(json!({"adj": o, "key": *n.key(), "value": Self::nval(n)}));
                     });
                 }
                 Value::Array(out)
@@ -666,7 +674,11 @@ macro_rules! flavour_impl {
                     return Value::Array(out);
                 }
                 if op == "g_new" {
-                    self.graph = Some(Graph::new());
+                    self.graph = Some(match a.get(1).and_then(|x| x.as_str()) {
+                        Some("default") => Graph::default(),
+                        Some("with_capacity") => sel!($kind, { sel2!($sync, { Graph::new() }, { Graph::with_capacity(4) }) }, { Graph::new() }),
+                        _ => Graph::new(),
+                    });
                     return json!("ok");
                 }
                 if op == "g_insert" {
@@ -683,7 +695,12 @@ macro_rules! flavour_impl {
                 let g = self.graph.as_ref().unwrap();
                 match op {
                     "g_get" => match g.get(&us(&a[1])) { Some(n) => self.node_obs(&n), None => Value::Null },
-                    "g_index" => { let n = &g[us(&a[1])]; self.node_obs(n) }
+                    "g_index" => {
+                        let by_ref = a.get(2).and_then(|x| x.as_bool()).unwrap_or(false);
+                        let k = us(&a[1]);
+                        let n = sel!($kind, { if by_ref { &g[&k] } else { &g[k] } }, { &g[k] });
+                        self.node_obs(n)
+                    }
                     "g_contains" => json!(g.contains(&us(&a[1]))),
                     "g_len" => json!(g.len()),
                     "g_is_empty" => json!(g.is_empty()),
